@@ -54,7 +54,8 @@ def tlc_gen_schedules(seed, nv, genlen, num, limit):
 
 
 # Byzantine share sets per cluster size (few, so that the number of trace-spec configurations stays small)
-BYZ_SETS = {3: [[]], 4: [[], [4], [1]], 5: [[], [5], [2]], 6: [[6], [3]], 7: [[], [7], [6, 7], [1, 4]]}
+BYZ_SETS = {3: [[]], 4: [[], [4]], 5: [[5]], 6: [[6]], 7: [[7], [6, 7]]}
+BYZ_SETS_BIG = {3: [[]], 4: [[], [4], [1]], 5: [[], [5], [2]], 6: [[6], [3]], 7: [[], [7], [6, 7], [1, 4]]}
 
 
 def random_schedules(seed, count, big):
@@ -63,10 +64,11 @@ def random_schedules(seed, count, big):
     kinds = ["happy", "happy", "equiv", "equiv", "byzfirst", "late", "crash", "restore", "split", "badvc", "mixed", "mixed"]
     for _ in range(count):
         n = r.choice([3, 4, 4, 4, 5, 5, 6, 7, 7] if not big else [3, 4, 4, 5, 5, 6, 6, 7, 7, 7])
-        byz = r.choice(BYZ_SETS[n])
+        sets = (BYZ_SETS_BIG if big else BYZ_SETS)[n]
+        byz = r.choice(sets)
         kind = r.choice(kinds)
         if kind in ("equiv", "byzfirst") and not byz:
-            byz = [b for b in BYZ_SETS[n] if b][0] if any(BYZ_SETS[n]) else []
+            byz = [b for b in sets if b][0] if any(sets) else []
         nv = r.choice([1, 1, 2])
         honest = [i for i in range(1, n + 1) if i not in byz]
         vals = list(range(1, nv + 1))
@@ -310,9 +312,9 @@ def run(tier, seed):
             raise vlib.Infra("design-spec control failed: '%s' not caught by %s: %s" % (what, inv, r.summary()))
         o.selftests.append({"control": "spec variant '%s' violates %s" % (what, inv), "rejected_as_required": True})
     # stage 1: schedules
-    g1 = tlc_gen_schedules(seed, 1, 28, 600 if thorough else 120, 2500 if thorough else 160)
-    g2 = tlc_gen_schedules(seed, 2, 30, 400 if thorough else 80, 1500 if thorough else 100)
-    rnd = random_schedules(seed, 4000 if thorough else 420, thorough)
+    g1 = tlc_gen_schedules(seed, 1, 28, 600 if thorough else 120, 2500 if thorough else 130)
+    g2 = tlc_gen_schedules(seed, 2, 30, 400 if thorough else 80, 1500 if thorough else 70)
+    rnd = random_schedules(seed, 4000 if thorough else 360, thorough)
     # stage 2+3
     kw = dict(chunk=120)
     vlib.conformance(o, FAMILY, "PipelineTrace", trace_cfg_of, "c01", directed_schedules(), tag="directed", **kw)
